@@ -530,7 +530,7 @@ type Ghost struct {
 	mm map[string]*Mem
 }
 
-var ghostScalars = []string{"outlen", "inpos", "inlen"}
+var ghostScalars = []string{"outlen", "inpos", "inlen", "ticks"} // ticks: a progress counter contracts may bump ("sets TICKS := ticks() + 1")
 var ghostMems = []string{"out", "in"}
 
 func (e *Engine) freshGhost(hint string) *Ghost {
@@ -540,6 +540,18 @@ func (e *Engine) freshGhost(hint string) *Ghost {
 	}
 	for _, n := range ghostMems {
 		g.mm[n] = e.mc.Base("ghost." + n + hint)
+	}
+	return g
+}
+
+// freshGhostFrom: everything about the ghost state is unknown after code that
+// has no contract, except the progress counter, which only contracts move.
+func (e *Engine) freshGhostFrom(old *Ghost, hint string) *Ghost {
+	g := e.freshGhost(hint)
+	if old != nil {
+		if t, ok := old.sc["ticks"]; ok {
+			g.sc["ticks"] = t
+		}
 	}
 	return g
 }
@@ -1006,7 +1018,7 @@ func (f *Frame) cutLoop(n *xnode, li *loopInfo, st *execState) {
 	} else {
 		st.mem = f.havocLoopMem(li, st)
 		if st.mem != memBefore {
-			st.gh = e.freshGhost(fmt.Sprintf(".L%d", li.ordinal))
+			st.gh = e.freshGhostFrom(st.gh, fmt.Sprintf(".L%d", li.ordinal))
 		}
 	}
 	// unpacked objects are loop-carried state too: if the body may store to
@@ -1922,6 +1934,22 @@ func (f *Frame) keepLocals(st *execState, before *Mem, skip map[*ssa.Alloc]bool)
 				}
 				st.mem = e.mc.Region(st.mem, pv.(Scalar).T, e.tb.ConstU(uint64(sz), 64), before)
 			}
+		}
+		// captured variables (closure cells) of an abstracted function: unknown
+		// callees are assumed not to reach them (recorded as an assumption)
+		if g.con != nil && g.con.Abstracted && len(g.fn.FreeVars) > 0 {
+			for _, fv := range g.fn.FreeVars {
+				pv, ok := env[fv]
+				pt, isPtr := fv.Type().Underlying().(*types.Pointer)
+				if !ok || !isPtr {
+					continue
+				}
+				sz := sizes.Sizeof(pt.Elem())
+				if s, isS := pv.(Scalar); isS && sz > 0 && sz <= 4096 {
+					st.mem = e.mc.Region(st.mem, s.T, e.tb.ConstU(uint64(sz), 64), before)
+				}
+			}
+			e.trusted["captured variables of "+fnName(g.fn)+" are not modified by the unmodelled functions it calls"] = true
 		}
 		// the locals of the frames this one is inlined into are out of reach too
 		env = g.parentEnv
